@@ -489,6 +489,11 @@ def run(eng, run):
     run.attempt(check_done, eng, run)
     run.attempt(check_own, eng, run)
     run.attempt(check_route, eng, run)
+    # a sender waiting for the TLS send lock behind one that is suspended by backpressure: the records it has produced must not leave the
+    # write BIO before it holds the lock, or its cancellation strands every later sender (rule of C12.tls)
+    from rules import c12
+    from sa.report import RuleAlias
+    run.attempt(c12.check_tls, eng, RuleAlias(run, "C20.drain"))
     run.end_of_rules()
 
 
